@@ -530,12 +530,27 @@ func leU64(b []byte) uint64 {
 
 func (g *vgen) storeOn(node uint64, logs []*raft.Log) bool {
 	var toks []string
-	willDrop := g.impl.nodes[node].pending && g.impl.nodes[node].queued
+	// hand-off simulation per checkpoint of the batch: one report may be running (pending) and one waiting
+	// (queued); a further one is dropped. Batches with more than one checkpoint are generated only for a node whose
+	// ReportFn is blocked (pending), where the outcome does not depend on how fast the verifier goroutine dequeues.
+	pend, qd := g.impl.nodes[node].pending, g.impl.nodes[node].queued
+	ncp := 0
 	for _, l := range logs {
 		toks = append(toks, logTok(l))
-		if cp, _ := isCPFn(l); cp && willDrop {
-			g.tags["dropped-report"] = true
-			continue
+		if cp, _ := isCPFn(l); cp && (len(l.Extensions) >= 24 || len(l.Extensions) == 0) {
+			ncp++
+			switch {
+			case pend && qd:
+				g.tags["dropped-report"] = true
+				if ncp > 1 {
+					g.tags["multi-checkpoint-batch-drop"] = true
+				}
+				continue
+			case pend:
+				qd = true
+			default:
+				pend = true
+			}
 		}
 		if cp, _ := isCPFn(l); cp && len(l.Extensions) >= 24 {
 			s := leU64(l.Extensions[8:16])
@@ -627,12 +642,16 @@ func (g *vgen) mutate(l *raft.Log) *raft.Log {
 
 func (g *vgen) appendLeader(k int, withCP bool) {
 	var batch []*raft.Log
-	cpAt := -1
+	cpAt, cpAt2 := -1, -1
 	if withCP {
 		cpAt = g.r.Intn(k)
+		if g.impl.nodes[g.leader].pending && k > 1 && g.r.Chance(1, 2) {
+			// several checkpoints in one batch while the leader's own ReportFn is blocked
+			cpAt2 = g.r.Intn(k)
+		}
 	}
 	for j := 0; j < k; j++ {
-		batch = append(batch, g.mkEntry(g.tLast+1+uint64(j), j == cpAt))
+		batch = append(batch, g.mkEntry(g.tLast+1+uint64(j), j == cpAt || j == cpAt2))
 	}
 	if !g.storeOn(g.leader, batch) {
 		return
@@ -671,7 +690,7 @@ func (g *vgen) replicate(f uint64, corrupt bool) {
 			}
 			if cp, _ := isCPFn(t); cp {
 				cps++
-				if cps > 1 {
+				if cps > 1 && !g.impl.nodes[f].pending {
 					break
 				}
 			}
